@@ -276,8 +276,10 @@ class FileSystem(object):
             elif _convert(passthrough) == path:
                 return path
 
-        # Remove leading '/' if any
-        path = path.lstrip(path_sep)
+        # Remove leading '/' if any. The path is taken from the root of the
+        # sandbox: a relative path may still start with '..' components, which
+        # must not climb above the base directory
+        path = os.path.normpath(os.path.join(path_sep, path)).lstrip(path_sep)
 
         base_path = os.path.abspath(_convert(self.base_path))
         out_path = os.path.join(base_path, path)
